@@ -7,7 +7,7 @@ import z3
 
 from . import seqops
 from .core import PathEnd, PyRaise
-from .values import (BoundMethod, Closure, DictCell, EnumerateV, ExcV, MapCell, ObjCell, Opaque, RangeV, Ref, SeqCell,
+from .values import (BoundMethod, Closure, DictCell, EnumerateV, ExcV, MapCell, MapElem, ObjCell, RegionListCell, Opaque, RangeV, Ref, SeqCell,
                      SeqV, Sym, Unsupported, is_scalar, kind_of, mk, sort_of, to_term)
 
 UNROLL_LIMIT = 40
@@ -510,6 +510,10 @@ class StmtMixin:
         if isinstance(it, EnumerateV):
             g, c = self.indexer(it.it)
             return (lambda j: SeqV("tuple", None, items=[self.binop(ast.Add, j, it.start), g(j)])), c
+        if isinstance(it, Ref) and isinstance(self.path.cell(it), RegionListCell):
+            # the list of all objects of a heap region, in key order
+            region = self.path.cell(it).region
+            return (lambda j: MapElem(region, z3.simplify(to_term(j, "int")))), self.path.cell(region).n
         seq = self.as_seq(it)
         if seq is not None:
             if seq.items is not None:
